@@ -39,6 +39,7 @@ class Rec:
         self.sets = {}
         self.samples = {}
         self.nviol = 0
+        self._per_mech = {}
         self.inconclusive_reasons = []
         self._fh = open(out_path, "a", encoding="utf-8")
         self._cur = out_path + ".cur"
@@ -71,8 +72,12 @@ class Rec:
 
     def violation(self, mechanism, case, detail=None):
         self.nviol += 1
-        if self.nviol > 400:  # keep logs bounded; the count still goes up
-            self.count("violations_not_logged")
+        n = self._per_mech.get(mechanism, 0) + 1
+        self._per_mech[mechanism] = n
+        if n > 25 or (n == 1 and len(self._per_mech) > 400):
+            # bounded log: every mechanism keeps its first 25 witnesses per shard, the rest are only counted
+            self.count("violations_counted_not_logged")
+            self.counters["viol:" + mechanism] = self.counters.get("viol:" + mechanism, 0) + 1
             return
         self._emit({"t": "v", "mechanism": mechanism, "case": case, "detail": detail})
 
